@@ -15,7 +15,7 @@
     - [expand] = attr_value_from_name / XmlUnexpandedEntityReference::value (entity expansion).
     - derived accessors used by the dump: [doc_notations], [doc_unparsed_entities], [impl_eq].
 
-    The model follows /repo main as of 23b1aa2, i.e. WITH the repairs of this area
+    The model follows /repo main as of c7c3294, i.e. WITH the repairs of this area
     (bd92e3d: parameter entities give Error::InvalidData instead of unimplemented!, D07;
     ed2c470: entity recursion detected during expansion, D09) and with builder-wf's
     well-formedness checks in XmlDocument::new (unique attribute names, legal characters,
@@ -498,7 +498,7 @@ Definition expand_value (rec : str -> ires str) (pinned_pe in_attribute : bool) 
   | XvCharacter num r => ibind (char_from num r) (fun c => IOk (if in_attribute then normalize_ws [c] else [c]))
   | XvEntity n => rec n
   | XvParameter n => if pinned_pe then IPanic PsParameterEntityValue else IErr (InvalidData (s_pe_ref n))
-  | XvText s => IOk (normalize_ws s)
+  | XvText s => IOk (if in_attribute then normalize_ws s else s)     (* c7c3294 *)
   end.
 Fixpoint expand_values (rec : str -> ires str) (pinned_pe in_attribute : bool) (vs : list ent_value) : ires str :=
   match vs with
@@ -519,10 +519,10 @@ Fixpoint expand_gen (checked pinned_pe in_attribute : bool) (fuel : nat) (ents :
 
 (** enough for every table when recursion is checked (Proofs/Expansion.v) *)
 Definition expand_fuel (ents : list entity) : nat := length ents + 7.
-(** XmlUnexpandedEntityReference::value *)
+(** XmlUnexpandedEntityReference::value of a reference in content *)
 Definition expand (ents : list entity) (name : str) : ires str :=
   expand_gen true false false (expand_fuel ents) ents [] name.
-(** attr_value_from_name *)
+(** attr_value_from_name; also XmlUnexpandedEntityReference::value of a reference inside an attribute value *)
 Definition expand_attr (ents : list entity) (name : str) : ires str :=
   expand_gen true false true (expand_fuel ents) ents [] name.
 Definition expand_pinned (fuel : nat) (ents : list entity) (name : str) : ires str :=
